@@ -59,6 +59,7 @@ func Run(ops []Op, opt RunOpts) *History {
 	ref := &Ref{ByEquals: opt.KeysByEquals}
 	for i, o := range ops {
 		res, errClass := ApplyImpl(pool, o)
+		res = Unwrap(res) // xops.go: only the results of Hash.new(.., 'tree') hold such values
 		var out Out
 		var snap *PV
 		if errClass != "" {
